@@ -9,22 +9,24 @@ Open Scope N_scope.
     for EVERY history of requests, page clears, clear-all and waits from the empty cache — any raw
     (percent-encoded) paths, queries, methods, headers (Accept-Encoding, Range, If-Modified-Since, vary
     headers), client addresses, in any order — with the response cache on or off, any content
-    negotiation outcome and any vary rules, a reply whose body sent or identity body contains the secret
-    answers a request whose decoded path is a file marked [allow-ips], neither hidden nor private, and
+    negotiation outcome, any vary rules and any URI rewriting [prime] by Prime extensions (identity on a host
+    without them; "Expand . and /" on a default host; kvarn hands the client address to the pipeline beside
+    the request, a Prime extension cannot change it), a reply whose body sent or identity body contains the
+    secret answers a request whose (rewritten) decoded path is a file marked [allow-ips], neither hidden nor private, and
     whose client address is listed by every [allow-ips] directive of that file. *)
 Theorem guarded_content_confined :
   forall (fs : bytes -> option bytes) (errpage : N -> bytes) (secret : bytes),
     (forall t c, fs t = Some c -> contains_sub secret c = true -> guarded t c = true) ->
     (forall s, contains_sub secret (errpage s) = false) ->
     (forall s, PresentLine.present_parse (errpage s) = Ok None) ->
-  forall cache_on ims_on parse_ims refuses vary_tuple vary_header now ops,
-    Forall2 (reply_ok fs secret) ops
-      (run_g true true fs errpage cache_on ims_on parse_ims refuses vary_tuple vary_header [] now ops).
+  forall cache_on ims_on parse_ims prime refuses vary_tuple vary_header now ops,
+    Forall2 (reply_ok fs secret prime) ops
+      (run_g true true fs errpage cache_on ims_on parse_ims prime refuses vary_tuple vary_header [] now ops).
 Proof. exact guarded_content_confined_lemma. Qed.
 
 (** [reply_ok] spelled out: never for [hide] / [*.private], only to listed addresses for [allow-ips] *)
-Theorem reply_ok_meaning : forall fs secret r rp lg,
-  reply_ok fs secret (OReq r) (ObReply rp lg) ->
+Theorem reply_ok_meaning : forall fs secret prime r0 rp lg,
+  reply_ok fs secret prime (OReq r0) (ObReply rp lg) -> let r := prime r0 in
   contains_sub secret (rp_body rp) = true \/ contains_sub secret (rp_identity rp) = true ->
   exists t c, served_file (rq_path r) = Ok (Some t) /\ fs t = Some c /\
               is_private t = false /\ has_name N_HIDE (entries_of c) = false /\
@@ -87,7 +89,7 @@ Theorem cache_directive_v0_refuted :
                          (w_run true false true [w_get (B "/ac.txt") 1; w_get (B "/ac.txt") 2]).
 Proof. exact cache_directive_v0_refuted_lemma. Qed.
 Theorem violates_contradicts_confined : forall fs secret ops obs,
-  violates fs secret ops obs -> ~ Forall2 (reply_ok fs secret) ops obs.
+  violates fs secret ops obs -> ~ Forall2 (reply_ok fs secret (fun r => r)) ops obs.
 Proof. exact violates_not_ok. Qed.
 
 (** non-vacuity: a host with one file of each kind meets the hypotheses; on it the listed address
